@@ -54,9 +54,25 @@ import gatectl
 from vlib import VERIF
 
 TMP = "/var/tmp"
-PHASE_TIMEOUT = 40.0      # s, one survivor phase (the survivor's own cleanup loop gives up after 3 s)
-VICTIM_TIMEOUT = 40.0
+PHASE_TIMEOUT = 20.0      # s, one survivor phase (the survivor's own cleanup loop gives up after 3 s)
+VICTIM_TIMEOUT = 20.0
 CREATION_TIMEOUT_MS = "300"
+# user the three harness processes run as ("" = the user of the check, root in the sandbox).  As root the
+# write-only-until-initialised permission protocol of iceoryx2 is not enforced by the kernel.
+def default_users(thorough):
+    """users the harness processes run as: None = the user of the check"""
+    if os.environ.get("C04_USER"):
+        return [None if u in ("root", "self") else u for u in os.environ["C04_USER"].split(",")]
+    if os.geteuid() != 0:
+        return [None]
+    try:
+        import pwd
+        pwd.getpwnam("nobody")
+    except KeyError:
+        return [None]
+    return ["nobody", None] if thorough else ["nobody"]
+
+
 
 _case_no = [0]
 _case_lock = threading.Lock()
@@ -70,10 +86,14 @@ class Hang(Exception):
 class Proc:
     """child process with line-wise stdout and hard timeouts"""
 
-    def __init__(self, argv, env, errpath):
+    def __init__(self, argv, env, errpath, user=None):
         self.err = open(errpath, "wb")
+        kw = {}
+        if user:
+            import grp, pwd
+            kw = {"user": user, "group": grp.getgrgid(pwd.getpwnam(user).pw_gid).gr_name}
         self.p = subprocess.Popen(argv, env=env, stdin=subprocess.PIPE, stdout=subprocess.PIPE, stderr=self.err,
-                                  start_new_session=True)
+                                  start_new_session=True, **kw)
         with _case_lock:
             _live.add(self.p.pid)
         self.lines = []
@@ -178,7 +198,7 @@ def co_owned(name, own_ids):
     return bool(m and (m.group(1) in own_ids or m.group(2) in own_ids))
 
 
-def run_case(exe_dir, scenario, k=None, kill_after=False, cleaner_k=None, cleaner_after=False, keep=False, syncs=()):
+def run_case(exe_dir, scenario, k=None, kill_after=False, cleaner_k=None, cleaner_after=False, keep=False, user=None):
     """One complete case in a private root.  Returns a dict with everything observed."""
     with _case_lock:
         _case_no[0] += 1
@@ -187,14 +207,19 @@ def run_case(exe_dir, scenario, k=None, kill_after=False, cleaner_k=None, cleane
     root = base + "/root"
     prefix = "c04_%d_%d_" % (os.getpid(), n)
     os.makedirs(root)
+    if user:
+        import pwd
+        pw = pwd.getpwnam(user)
+        for d_ in (base, root):
+            os.chown(d_, pw.pw_uid, pw.pw_gid)
     env = dict(os.environ)
     env.update({"C04_ROOT": root, "C04_PREFIX": prefix, "C04_TIMEOUT_MS": CREATION_TIMEOUT_MS, "C04_AUTOCLEAN": "0"})
     res = {"scenario": scenario, "k": k, "kill_after": kill_after, "cleaner_k": cleaner_k, "cleaner_after": cleaner_after,
-           "problems": [], "phases": {}, "root": root, "prefix": prefix}
+           "problems": [], "phases": {}, "root": root, "prefix": prefix, "user": user}
     procs = []
     t0 = time.time()
     try:
-        sv = Proc([os.path.join(exe_dir, "survivor"), scenario], env, base + "/survivor.err")
+        sv = Proc([os.path.join(exe_dir, "survivor"), scenario], env, base + "/survivor.err", user)
         procs.append(sv)
 
         def phase(name):
@@ -222,7 +247,7 @@ def run_case(exe_dir, scenario, k=None, kill_after=False, cleaner_k=None, cleane
         vlog = base + "/victim.log"
         venv = gatectl.gate_env(root, prefix, vlog, None, k, kill_after, base=env)
         venv["C04_AUTOCLEAN"] = "1"
-        vi = Proc([os.path.join(exe_dir, "victim"), scenario], venv, base + "/victim.err")
+        vi = Proc([os.path.join(exe_dir, "victim"), scenario], venv, base + "/victim.err", user)
         procs.append(vi)
         dl = time.time() + VICTIM_TIMEOUT
         try:
@@ -245,7 +270,7 @@ def run_case(exe_dir, scenario, k=None, kill_after=False, cleaner_k=None, cleane
         if cleaner_k is not None:
             clog = base + "/cleaner.log"
             cenv = gatectl.gate_env(root, prefix, clog, None, cleaner_k if cleaner_k > 0 else None, cleaner_after, base=env)
-            cl = Proc([os.path.join(exe_dir, "cleaner")], cenv, base + "/cleaner.err")
+            cl = Proc([os.path.join(exe_dir, "cleaner")], cenv, base + "/cleaner.err", user)
             procs.append(cl)
             try:
                 cl.until(lambda l: False, VICTIM_TIMEOUT)
@@ -358,7 +383,8 @@ def after_line_ok(l):
 
 
 def judge(res, ref):
-    """list of (symptom, detail) for one case; ref = the reference case of the scenario (or None)"""
+    """list of (symptom, detail) for one case; ref = the reference case of the scenario (or None).
+    Symptoms are normalised strings (no ids); consequences of an earlier symptom are suppressed."""
     bad = []
     for p in res["problems"]:
         bad.append((p, res["phases"].get(p.split(":")[-1], "")))
@@ -373,18 +399,26 @@ def judge(res, ref):
     for l in after:
         if "CORRUPT" in l:
             bad.append(("corrupt-data", l))
-    cl = [l for l in after if l.startswith("O cleanup")]
-    for l in cl:
+    stuck = False
+    for l in [l for l in after if l.startswith("O cleanup")]:
         v = l.split(" = ")[1]
+        if "fallback:y" in v:
+            bad.append(("cleanup-without-details-uses-global-config", [x for x in after if x.startswith("C ")]))
+        rs = re.search(r"results:\[(.*)\]$", v).group(1)
+        rl = [x.strip('"') for x in rs.split(",") if x]
         if v.startswith("STUCK"):
             st = re.search(r"states:\[([^\]]*)\]", v).group(1)
-            bad.append(("node-never-clean:" + st + ":" + re.search(r"results:(.*)$", v).group(1), l))
+            bad.append(("node-never-clean:" + st + ":" + "+".join(x for x in rl if x != "ok"), [x for x in after if x.startswith("C ")]))
+            stuck = True
         else:
-            rs = re.search(r"results:\[(.*)\]$", v).group(1)
-            for r in [x.strip('"') for x in rs.split(",") if x]:
-                if r not in ("ok", "ResourcesAlreadyCleanedUp"):
-                    bad.append(("cleanup-result:" + r, l))
+            for r in rl:
+                if r not in ("ok",) and not (r == "ResourcesAlreadyCleanedUp" and (res.get("cleaner_k") is not None or "fallback:y" in v)):
+                    bad.append(("cleanup-result:" + r, [x for x in after if x.startswith("C ")]))
+    if stuck:
+        return bad
+    resid = False
     if res.get("listing_a_new"):
+        resid = True
         bad.append(("residue-after-cleanup:" + ",".join(sorted({kind_of(x) for x in res["listing_a_new"]})), res["listing_a_new"]))
     if res.get("listing_a_lost"):
         bad.append(("survivor-resource-lost:" + ",".join(sorted({kind_of(x) for x in res["listing_a_lost"]})), res["listing_a_lost"]))
@@ -392,13 +426,31 @@ def judge(res, ref):
         mine = [l for l in res["phases"].get("probe", []) if l.startswith("O ")]
         want = [l for l in ref["phases"].get("probe", []) if l.startswith("O ")]
         if mine != want:
-            diff = [(a, b) for a, b in zip(mine, want) if a != b][:4]
-            first = diff[0] if diff else ("length", "%d vs %d" % (len(mine), len(want)))
-            cmd = first[0].split(" = ")[0][2:]
-            bad.append(("probe-differs:" + " ".join(cmd.split()[:1]) + ":" + first[0].split(" = ")[-1][:60], diff))
-    if res.get("listing_b"):
+            diff = [(a, b) for a, b in zip(mine, want) if a != b][:6]
+            first = diff[0] if diff else ("O length = %d" % len(mine), "O length = %d" % len(want))
+            cmd = first[0].split(" = ")[0][2:].split()
+            bad.append(("probe-differs:" + " ".join(cmd[:1] + cmd[2:4] if cmd[0] in ("svc", "port") else cmd[:1]) + ":" + first[0].split(" = ")[-1][:60],
+                        {"observed_vs_reference": diff}))
+    if res.get("listing_b") and not resid:
         bad.append(("residue-after-shutdown:" + ",".join(sorted({kind_of(x) for x in res["listing_b"]})), res["listing_b"]))
     return bad
+
+
+def window_kind(win, scenario):
+    """scenario-independent name of an API window where possible"""
+    w = re.sub(r"^\d+:", "", win)
+    f = w.split("_")
+    if w in ("node_n", "start"):
+        return "node-create"
+    if w == "drop_n":
+        return "node-drop"
+    if w == "cleaner":
+        return "cleaner@" + scenario
+    if f[0] == "svc":
+        return "svc-%s-%s" % (f[4], f[3])
+    if f[0] == "port":
+        return "port-create-%s@%s" % (f[3], scenario)
+    return w + "@" + scenario
 
 
 def kind_of(name):
@@ -418,21 +470,53 @@ def kind_of(name):
 
 
 # ---------------------------------------------------------------------------------------- selection
-def select_points(ctrace, tier_thorough, stride):
-    """gate indices (1-based) at which the victim is killed.  quick: every index inside creation/drop windows of
-    the scenario's own object (the windows after the first `svc`/`node`-only prefix are all kept), every first
-    occurrence of a (call kind, role) pair, and every stride-th index elsewhere."""
+MUTATING = re.compile(r"^(mkdir|rmdir|remove|unlink|unlinkat|shm_unlink|rename|renameat|ftruncate|truncate|fchmod|chmod|fchmodat|write|pwrite|flock) "
+                      r"|^(open|openat|shm_open|creat) \\S+ flags=\\S*O_CREAT|^fcntl \\S+ cmd=F_(OFD_)?SETLK")
+
+
+def own_window(scenario, label):
+    """is the API window `label` (marker text) one of the windows this scenario is about?  node create/drop is
+    enumerated completely in scenario `node`, service open/drop in the open_*/create_* scenarios"""
+    w = re.sub(r"^\d+:", "", label)
+    if scenario == "node" or scenario == "cleaner":
+        return True
+    if w in ("node_n", "start", "drop_n", "end"):
+        return False
+    if scenario.startswith(("create_", "open_")):
+        return True
+    if w.startswith("svc_") and "_open_" in w or w == "drop_s":
+        return False
+    return True
+
+
+def select_points(ctrace, tier_thorough, stride, scenario="cleaner", seen=None):
+    """gate indices (1-based) at which the process is killed (before the call).
+    thorough: all.  quick: every call of the scenario's own API windows; elsewhere the file-system state only
+    changes at mutating calls (kill points between two mutating calls differ only in shared-memory writes the gate
+    does not see): every mutating call k and k+1 (= the state right after call k), the first occurrence (over all
+    scenarios) of every (call kind, role) pair, every stride-th index and the last index."""
     n = len(ctrace)
     if tier_thorough:
         return list(range(1, n + 1))
+    if seen is None:
+        seen = set()
     sel = set()
-    seen = set()
+    win = "start"
     for i, line in enumerate(ctrace, 1):
+        if line.startswith("access R/@M/"):
+            win = line.split(" ")[1][len("R/@M/"):]
+            continue
         r = role_of(line)
         if r not in seen:
             seen.add(r)
             sel.add(i)
-        if i % stride == 0:
+        if scenario != "cleaner" and own_window(scenario, win):
+            sel.add(i)
+        if MUTATING.search(line):
+            sel.add(i)
+            if i + 1 <= n:
+                sel.add(i + 1)
+        if stride and i % stride == 0:
             sel.add(i)
     sel.add(n)
     return sorted(sel)
@@ -497,10 +581,112 @@ def replay_cmd(res):
         s += " --cleaner-k %d" % res["cleaner_k"]
     if res.get("cleaner_after"):
         s += " --cleaner-after"
+    s += " --user %s" % (res.get("user") or "self")
     return s
 
 
 # ---------------------------------------------------------------------------------------- main
+def enumerate_as(ctx, tdir, scs, user, th, model_steps, classes, stats):
+    """reference runs + crash enumeration with the harness processes running as `user`"""
+    uname = user or "self"
+    t_ref = time.time()
+    refs = {}
+    with cf.ThreadPoolExecutor(max_workers=vlib.NPROC) as ex:
+        futs = {(s["name"], i): ex.submit(run_case, tdir, s["name"], user=user) for s in scs for i in ((0, 1) if th else (0,))}
+        futs.update({(s["name"], "c"): ex.submit(run_case, tdir, s["name"], None, False, 0, user=user) for s in scs if s["cleaner"]})
+        for key, f in futs.items():
+            refs[key] = f.result()
+    jobs = []
+    info = {}
+    for s in scs:
+        nme = s["name"]
+        r0, r1 = refs[(nme, 0)], refs.get((nme, 1), refs[(nme, 0)])
+        c0 = canon_trace(r0.get("victim_trace", []), r0["canon"])
+        c1 = canon_trace(r1.get("victim_trace", []), r1["canon"])
+        b0 = judge(r0, None)
+        if b0 or not c0:
+            ctx.violation("reference run (victim not killed, user %s) of scenario %s fails: %s" % (uname, nme, [b[0] for b in b0] or "no trace"),
+                          {"scenario": nme, "symptoms": b0, "victim_out": r0.get("victim_out"), "phases": r0["phases"], "how_to_rerun": replay_cmd(r0)},
+                          key="%s:reference:%s" % (nme, b0[0][0] if b0 else "no-trace"))
+            continue
+        if c0 != c1:
+            d = next((i for i, (a, b) in enumerate(zip(c0, c1)) if a != b), min(len(c0), len(c1)))
+            ctx.notes.append("scenario %s (user %s): two un-killed runs differ at gated call %d (%s | %s)" % (nme, uname, d + 1, c0[d:d + 1], c1[d:d + 1]))
+        info[nme] = {"N": len(c0), "ctrace": c0, "ref": r0}
+        if model_steps is not None and user == stats["tie_user"]:
+            t = tie_check(nme, c0, model_steps)
+            stats["tie_checked"] += 1
+            if t:
+                stats["tie_bad"].append(t)
+        ks = select_points(c0, th, int(os.environ.get("C04_STRIDE", "12")), nme, stats["seen_roles"])
+        for k in ks:
+            jobs.append((nme, k, False, None, False))
+            if th:
+                jobs.append((nme, k, True, None, False))
+        if s["cleaner"]:
+            rc_ = refs[(nme, "c")]
+            cc = canon_trace(rc_.get("cleaner_trace", []), rc_["canon"])
+            bc = judge(rc_, r0)
+            if bc or not cc:
+                ctx.violation("reference run of the cleaner process (user %s) in scenario %s fails: %s" % (uname, nme, [b[0] for b in bc] or "no trace"),
+                              {"scenario": nme, "symptoms": bc, "cleaner_out": rc_.get("cleaner_out"), "phases": rc_["phases"]},
+                              key="%s:cleaner-reference:%s" % (nme, bc[0][0] if bc else "no-trace"))
+                continue
+            info[nme]["NC"] = len(cc)
+            info[nme]["cctrace"] = cc
+            for j in select_points(cc, th, int(os.environ.get("C04_CSTRIDE", "25")), "cleaner", stats["seen_croles"]):
+                jobs.append((nme, None, False, j, False))
+                if th:
+                    jobs.append((nme, None, False, j, True))
+    ctx.log("user %s: reference runs of %d scenarios, %.1fs; %d crash cases selected" % (uname, len(info), time.time() - t_ref, len(jobs)))
+    t_enum = time.time()
+    per_scn = stats["per_scn"].setdefault(uname, {})
+    nfail = 0
+    with cf.ThreadPoolExecutor(max_workers=vlib.NPROC) as ex:
+        futs = [(j, ex.submit(run_case, tdir, j[0], j[1], j[2], j[3], j[4], user=user)) for j in jobs]
+        for j, f in futs:
+            nme, k, ka, ck, cka = j
+            res = f.result()
+            stats["ncases"] += 1
+            inf = info[nme]
+            per = per_scn.setdefault(nme, {"gated_calls": inf["N"], "cleaner_gated_calls": inf.get("NC"), "victim_points": 0, "cleaner_points": 0, "failing": 0})
+            if ck is None:
+                per["victim_points"] += 1
+                tr = inf["ctrace"]
+                at = tr[k - 1]
+                win = window_of(tr, k)
+                mine = canon_trace(res.get("victim_trace", []), res["canon"])
+                if [role_of(x) for x in mine[:k - 1]] != [role_of(x) for x in tr[:k - 1]]:
+                    stats["prefix_mismatch"] += 1
+            else:
+                per["cleaner_points"] += 1
+                tr = inf["cctrace"]
+                at = tr[ck - 1]
+                win = "cleaner"
+            stats["roles"].add(role_of(at))
+            bad = judge(res, inf["ref"])
+            if bad:
+                nfail += 1
+                per["failing"] += 1
+                idx = k if ck is None else ck
+                wk = window_kind(win, nme)
+                for sym, detail in bad:
+                    key = "%s:%s" % (wk, sym)
+                    c = classes.setdefault(key, {"count": 0, "first": None, "points": [], "users": set()})
+                    c["count"] += 1
+                    c["users"].add(uname)
+                    if len(c["points"]) < 40:
+                        c["points"].append("%s k=%d%s %s [%s]" % (nme, idx, "+" if (ka or cka) else "", role_of(at), uname))
+                    if c["first"] is None:
+                        c["first"] = {"scenario": nme, "crash_index": idx, "kill_after": ka or cka, "process": "victim" if ck is None else "cleaner",
+                                      "run_as_user": uname, "call_at_crash_point": at, "api_window": win, "symptom": sym, "detail": detail,
+                                      "all_symptoms_of_this_case": [b[0] for b in bad],
+                                      "trace_prefix": tr[max(0, idx - 25):idx], "survivor_after": res["phases"].get("after"),
+                                      "survivor_probe": res["phases"].get("probe"), "how_to_rerun": replay_cmd(res)}
+    stats["nfail"] += nfail
+    ctx.log("user %s: enumeration of %d cases, %.1fs, %d failing cases" % (uname, len(jobs), time.time() - t_enum, nfail))
+
+
 def run(ctx):
     import atexit
     atexit.register(cleanup_own)
@@ -517,132 +703,40 @@ def run(ctx):
     only = os.environ.get("C04_ONLY")
     if only:
         scs = [s for s in scs if re.search(only, s["name"])]
-    t_ref = time.time()
-    # ---- reference runs (twice: the gated-call sequence must be reproducible)
-    refs = {}
-    with cf.ThreadPoolExecutor(max_workers=vlib.NPROC) as ex:
-        futs = {(s["name"], i): ex.submit(run_case, tdir, s["name"]) for s in scs for i in (0, 1)}
-        futs.update({(s["name"], "c"): ex.submit(run_case, tdir, s["name"], None, False, 0) for s in scs if s["cleaner"]})
-        for key, f in futs.items():
-            refs[key] = f.result()
+    users = default_users(th)
     model_steps = model_step_lists(ctx)
-    jobs = []
-    info = {}
-    tie_bad = []
-    for s in scs:
-        nme = s["name"]
-        r0, r1 = refs[(nme, 0)], refs[(nme, 1)]
-        c0 = canon_trace(r0.get("victim_trace", []), r0["canon"])
-        c1 = canon_trace(r1.get("victim_trace", []), r1["canon"])
-        b0 = judge(r0, None)
-        if b0 or not c0:
-            ctx.violation("reference run (victim not killed) of scenario %s fails: %s" % (nme, [b[0] for b in b0] or "no trace"),
-                          {"scenario": nme, "symptoms": b0, "victim_out": r0.get("victim_out"), "phases": r0["phases"], "how_to_rerun": replay_cmd(r0)},
-                          key="%s:reference:%s" % (nme, b0[0][0] if b0 else "no-trace"))
-            continue
-        if c0 != c1:
-            d = next((i for i, (a, b) in enumerate(zip(c0, c1)) if a != b), min(len(c0), len(c1)))
-            ctx.notes.append("scenario %s: two un-killed runs differ at gated call %d (%s | %s)" % (nme, d + 1, c0[d:d + 1], c1[d:d + 1]))
-        info[nme] = {"N": len(c0), "ctrace": c0, "ref": r0}
-        if model_steps is not None:
-            t = tie_check(nme, c0, model_steps)
-            if t:
-                tie_bad.append(t)
-        ks = select_points(c0, th, int(os.environ.get("C04_STRIDE", "5")))
-        for k in ks:
-            jobs.append((nme, k, False, None, False))
-            if th:
-                jobs.append((nme, k, True, None, False))
-        if s["cleaner"]:
-            rc_ = refs[(nme, "c")]
-            cc = canon_trace(rc_.get("cleaner_trace", []), rc_["canon"])
-            bc = judge(rc_, r0)
-            if bc or not cc:
-                ctx.violation("reference run of the cleaner process in scenario %s fails: %s" % (nme, [b[0] for b in bc] or "no trace"),
-                              {"scenario": nme, "symptoms": bc, "cleaner_out": rc_.get("cleaner_out"), "phases": rc_["phases"]},
-                              key="%s:cleaner-reference:%s" % (nme, bc[0][0] if bc else "no-trace"))
-                continue
-            info[nme]["NC"] = len(cc)
-            info[nme]["cctrace"] = cc
-            for j in select_points(cc, th, int(os.environ.get("C04_CSTRIDE", "3"))):
-                jobs.append((nme, None, False, j, False))
-                if th:
-                    jobs.append((nme, None, False, j, True))
-    ctx.log("reference runs: %d scenarios, %.1fs; %d crash cases selected" % (len(info), time.time() - t_ref, len(jobs)))
-    # ---- enumeration
-    t_enum = time.time()
     classes = {}
-    ncases = 0
-    nviol_cases = 0
-    cover_roles = set()
-    per_scn = {}
-    prefix_mismatch = 0
-    with cf.ThreadPoolExecutor(max_workers=vlib.NPROC) as ex:
-        futs = [(j, ex.submit(run_case, tdir, j[0], j[1], j[2], j[3], j[4])) for j in jobs]
-        for j, f in futs:
-            nme, k, ka, ck, cka = j
-            res = f.result()
-            ncases += 1
-            inf = info[nme]
-            per = per_scn.setdefault(nme, {"victim_points": 0, "cleaner_points": 0})
-            if ck is None:
-                per["victim_points"] += 1
-                tr = inf["ctrace"]
-                at = tr[k - 1]
-                win = window_of(tr, k)
-                mine = canon_trace(res.get("victim_trace", []), res["canon"])
-                if [role_of(x) for x in mine[:k - 1]] != [role_of(x) for x in tr[:k - 1]]:
-                    prefix_mismatch += 1
-            else:
-                per["cleaner_points"] += 1
-                tr = inf["cctrace"]
-                at = tr[ck - 1]
-                win = "cleaner"
-            cover_roles.add(role_of(at))
-            bad = judge(res, inf["ref"])
-            if bad:
-                nviol_cases += 1
-                for sym, detail in bad[:1]:
-                    key = "%s:%s:%s:%s" % (nme, win, role_of(at), sym)
-                    c = classes.setdefault(key, {"count": 0, "first": None})
-                    c["count"] += 1
-                    if c["first"] is None:
-                        idx = k if ck is None else ck
-                        c["first"] = {"scenario": nme, "crash_index": idx, "kill_after": ka or cka, "process": "victim" if ck is None else "cleaner",
-                                      "call_at_crash_point": at, "api_window": win, "symptom": sym, "detail": detail,
-                                      "all_symptoms": [b[0] for b in bad],
-                                      "trace_prefix": tr[max(0, idx - 25):idx], "survivor_after": res["phases"].get("after"),
-                                      "survivor_probe": res["phases"].get("probe"), "how_to_rerun": replay_cmd(res)}
-    ctx.log("enumeration: %d cases, %.1fs, %d failing cases in %d classes" % (ncases, time.time() - t_enum, nviol_cases, len(classes)))
-    # group classes by (scenario-independent) root cause = call role + symptom, report each once
-    reported = set()
+    stats = {"ncases": 0, "nfail": 0, "prefix_mismatch": 0, "roles": set(), "per_scn": {}, "tie_bad": [], "tie_checked": 0, "tie_user": users[0], "seen_roles": set(), "seen_croles": set()}
+    for u in users:
+        stats["seen_roles"], stats["seen_croles"] = set(), set()
+        enumerate_as(ctx, tdir, scs, u, th, model_steps, classes, stats)
     for key in sorted(classes):
         c = classes[key]
-        nme, win, role, sym = key.split(":", 3)
-        stable = "%s:%s:%s" % (re.sub(r"^\d+_", "", win), role, sym)
-        stable_key = nme + ":" + stable
-        if stable_key in reported:
-            continue
-        reported.add(stable_key)
-        ctx.violation("crash in scenario %s at gated call %d (%s, window %s, %s): %s [%d cases in this class]" % (
-            nme, c["first"]["crash_index"], c["first"]["call_at_crash_point"], win, c["first"]["process"], sym, c["count"]),
-            c["first"], key=stable_key)
-    if tie_bad:
-        for t in tie_bad[:5]:
-            ctx.violation("correspondence model<->implementation broken: resource steps of scenario %s differ from coq/model/Lifecycle.v: %s" % (t[0], t[1]),
-                          {"obligation": "trace equality per scenario", "scenario": t[0], "detail": t[1:]}, no_input=True)
+        fst = dict(c["first"])
+        fst["crash_points_in_this_class"] = c["points"]
+        fst["cases_in_this_class"] = c["count"]
+        fst["seen_as_user"] = sorted(c["users"])
+        vkey = key if c["users"] != {"self"} or len(users) == 1 else key + "@root-only"
+        ctx.violation("%s -- first: scenario %s, %s killed at gated call %d (%s), user %s; %d crash cases in this class" % (
+            vkey, fst["scenario"], fst["process"], fst["crash_index"], fst["call_at_crash_point"], fst["run_as_user"], c["count"]), fst, key=vkey)
+    for t in stats["tie_bad"][:8]:
+        ctx.violation("correspondence model<->implementation broken: resource steps of scenario %s differ from coq/model/Lifecycle.v: %s" % (t[0], t[1]),
+                      {"obligation": "trace equality per scenario", "scenario": t[0], "detail": t[1:]}, no_input=True)
     if proof_ok is False and not ctx.violations:
         ctx.violation("proof obligation no longer checks: %s" % ctx.broken, {"broken": ctx.broken}, no_input=True)
+    first_u = (users[0] or "self")
     ctx.cov.update({
-        "scenarios": {n: {"gated_calls": info[n]["N"], "cleaner_gated_calls": info[n].get("NC"), **per_scn.get(n, {})} for n in info},
-        "crash_cases_run": ncases, "failing_cases": nviol_cases, "failing_classes": len(classes),
-        "distinct_call_roles_at_crash_point": len(cover_roles),
-        "kill_prefix_trace_mismatches": prefix_mismatch,
-        "evaluations": ncases, "exhaustive": bool(th),
+        "scenarios": stats["per_scn"],
+        "users": [u or "self" for u in users],
+        "crash_cases_run": stats["ncases"], "failing_cases": stats["nfail"], "failing_classes": len(classes),
+        "distinct_call_roles_at_crash_point": len(stats["roles"]),
+        "kill_prefix_trace_mismatches": stats["prefix_mismatch"],
+        "model_tie_scenarios_checked": stats["tie_checked"],
+        "evaluations": stats["ncases"], "exhaustive": bool(th),
         "rule": "thorough: every gated call index of every scenario, kill before and after the call, plus every gated call of the cleaner in the "
-                "full_* scenarios; quick: first occurrence of every (call kind, role) pair per scenario, every %s-th index, the last index; cleaner every %s-th"
-                % (os.environ.get("C04_STRIDE", "5"), os.environ.get("C04_CSTRIDE", "3")),
-        "samples": [{"scenario": n, "reference_trace_head": info[n]["ctrace"][:12]} for n in list(info)[:2]],
+                "full_* scenarios, as user nobody and as root; quick (user nobody when the check runs as root): first occurrence of every (call kind, role) "
+                "pair per scenario, every %s-th index, the last index; cleaner every %s-th" % (os.environ.get("C04_STRIDE", "12"), os.environ.get("C04_CSTRIDE", "25")),
+        "samples": [],
     })
     ctx.assumptions = [
         "crash points are the gated libc calls of harness/libgate (file-system / shm / mmap / lock calls on the private root and prefix); crashes between two "
@@ -690,8 +784,11 @@ def main_case(argv):
 
     def opt(name):
         return int(argv[argv.index(name) + 1]) if name in argv else None
-    ref = run_case(tdir, sc)
-    res = run_case(tdir, sc, opt("--k"), "--after" in argv, opt("--cleaner-k"), "--cleaner-after" in argv, keep="--keep" in argv)
+    user = argv[argv.index("--user") + 1] if "--user" in argv else default_users(False)[0]
+    if user in ("self", "root"):
+        user = None
+    ref = run_case(tdir, sc, user=user)
+    res = run_case(tdir, sc, opt("--k"), "--after" in argv, opt("--cleaner-k"), "--cleaner-after" in argv, keep="--keep" in argv, user=user)
     ct = canon_trace(res.get("victim_trace", []), res["canon"])
     if "--trace" in argv:
         for i, l in enumerate(ct, 1):
